@@ -73,10 +73,11 @@ func pool6() []vp.Val {
 // ---------- one case ----------
 
 type rcase struct {
-	Src     string            `json:"src"`
-	Vars    map[string]vp.Val `json:"vars,omitempty"`
-	WantErr bool              `json:"want_err,omitempty"`
-	Want    vp.Val            `json:"want"`
+	Src      string            `json:"src"`
+	Vars     map[string]vp.Val `json:"vars,omitempty"`
+	WantErr  bool              `json:"want_err,omitempty"`
+	TypeOnly bool              `json:"type_only,omitempty"` // only the dynamic type of Want is compared
+	Want     vp.Val            `json:"want"`
 }
 
 func (r rcase) text() string {
@@ -126,12 +127,13 @@ func runSrc(e *env.Env, src string) (o outcome) {
 
 // runner executes the cases of one work item (one goroutine).
 type runner struct {
-	res   *common.Result
-	space string
-	seen  map[uint64]struct{} // distinct non-trivial case texts of this item
-	evals int64
-	undef int64
-	errs  int64
+	res      *common.Result
+	space    string
+	seen     map[uint64]struct{} // distinct non-trivial case texts of this item
+	evals    int64
+	undef    int64
+	errs     int64
+	typeOnly int64
 
 	wantSample bool // first work item of its space: keep one written-out case
 	sampleRec  map[string]interface{}
@@ -181,6 +183,17 @@ func (k *runner) judge(tmpl, src string, names []string, vals []vp.Val, kinds st
 	}
 	fail := ""
 	switch {
+	case st == typeonly:
+		// only the dynamic type is fixed; an error is not judged either way
+		if o.err != nil {
+			k.res.Add("type_only_cases_that_errored_not_judged", 1)
+			return
+		}
+		if _, is := o.val.(float64); !is {
+			fail = "type"
+		} else {
+			k.typeOnly++
+		}
 	case st == fails && o.err == nil:
 		fail = "missing-error"
 	case st == fails:
@@ -212,7 +225,7 @@ func (k *runner) judge(tmpl, src string, names []string, vals []vp.Val, kinds st
 		k.seen[hashCase(src, vals)] = struct{}{}
 		return
 	}
-	rc := rcase{Src: src, WantErr: st == fails, Want: want}
+	rc := rcase{Src: src, WantErr: st == fails, TypeOnly: st == typeonly, Want: want}
 	if len(names) > 0 {
 		rc.Vars = map[string]vp.Val{}
 		for i, n := range names {
@@ -222,6 +235,9 @@ func (k *runner) judge(tmpl, src string, names []string, vals []vp.Val, kinds st
 	wantS := want.String()
 	if st == fails {
 		wantS = "an error"
+	}
+	if st == typeonly {
+		wantS = "a float64 (value not compared)"
 	}
 	gotS := vp.Describe(o.val)
 	if o.err != nil {
@@ -249,6 +265,9 @@ func (k *runner) sample(src string, names []string, vals []vp.Val, o outcome, wa
 	exp := want.String()
 	if st == fails {
 		exp = "error"
+	}
+	if st == typeonly {
+		exp = "a float64 (value not compared)"
 	}
 	got := vp.Describe(o.val)
 	if o.err != nil {
@@ -667,6 +686,7 @@ func run(c *common.Ctx) *common.Result {
 		res.Add("evaluations:"+it.space, k.evals)
 		res.Add("undefined_by_property_skipped", k.undef)
 		res.Add("expected_errors_confirmed", k.errs)
+		res.Add("type_only_float64_confirmed", k.typeOnly)
 		res.Add("distinct_nontrivial", int64(len(k.seen)))
 		if d := int64(maxDepthOfKey(it.key)); d > 0 {
 			res.Max("tree_depth", d)
@@ -718,6 +738,7 @@ func coverage(c *common.Ctx, r *common.Result) map[string]interface{} {
 		"generated_cross_product":        r.Counts["generated"],
 		"undefined_by_property_skipped":  r.Counts["undefined_by_property_skipped"],
 		"expected_errors_confirmed":      r.Counts["expected_errors_confirmed"],
+		"type_only_float64_confirmed":    r.Counts["type_only_float64_confirmed"],
 		"operator_trees":                 r.SetSize("items"),
 		"evaluations_per_space":          per,
 		"max_tree_depth":                 r.GetMax("tree_depth"),
@@ -756,8 +777,11 @@ func replay(c *common.Ctx, path string) int {
 	if rc.WantErr {
 		want = "error"
 	}
+	if rc.TypeOnly {
+		want = "a float64 (value not compared)"
+	}
 	fmt.Printf("reference: %s   vm: %s\n", want, a)
-	if a == want {
+	if a == want || (rc.TypeOnly && (strings.HasPrefix(a, "float64(") || a == "error")) {
 		fmt.Println("replay: reference and implementation agree")
 		return 0
 	}
@@ -770,8 +794,9 @@ func init() {
 		ID: "C05", Level: "exploration", Run: run, Coverage: coverage, Replay: replay,
 		Assumptions: []string{
 			"operand values are drawn from the stated pools (40 int64, 28 float64 incl. NaN/±Inf/±0, 6 strings; every integer -3..4098 in the cache sweep); expression trees up to depth 2 (quick) / 3 (thorough)",
+			"`-` and `*` with exactly one float64 operand and a string operand: only the dynamic type of the result (float64) is compared, at the root of a tree",
 			"compared operand-kind combinations are exactly those the property defines: int,int for + - * % & | << >> == != < <= > >= and unary - ^; at least one float64 for + - * and the orderings (and unary - on a float); / on any two numbers; string+string, string+number, number+string; string*int for 0 <= n <= 1000",
-			"not compared (property silent): bool operands, % & | << >> ^ with a float, ordering/==/- of strings, n*string, negative or >1000 repeat counts, strings longer than 65536, == and != when a float or string is involved (C06)",
+			"not compared (property silent): bool operands, % & | << >> ^ with a float, ordering/== of strings, - and * of strings without a float64 operand, n*string, negative or >1000 repeat counts, strings longer than 65536, == and != when a float or string is involved (C06)",
 			"the reference is Go's own arithmetic on this machine (amd64, no fused multiply-add across separate operations); floats are compared bit for bit except NaN (any NaN matches any NaN)",
 			"plain vm.Execute / vm.Run with Options nil on a fresh environment; expressions contain no loops or calls, so no fuel is needed",
 			"error messages are not compared, only error-vs-success (`%` by zero)",
